@@ -13,6 +13,7 @@ TR_INV = {
     "type": ("implies(j >= 1, isfloat(Rd(c, j, N)))", ["C05", "C09"]),
     "rounded": ROUNDED,
     "true-range": (f"implies(j >= 1, Abs(num(Rd(c, j, N)) - Max({H} - {L}, Abs({H} - {C1}), Abs({L} - {C1}))) <= eps)", ["C05"]),
+    "tr>=0": ("implies(j >= 1, num(Rd(c, j, N)) >= 0)", ["C10"]),
     "tr>=high-low>=0": (f"implies(j >= 1, num(Rd(c, j, N)) >= {H} - {L} - eps and {H} - {L} >= 0)", ["C10"]),
 }
 
@@ -96,6 +97,29 @@ SPECS = [
         },
         variants=[{}, {"input_value": "dotted"}, {"count_value": "int"}],
         window="1",
+        props=["C01", "C02", "C05", "C09", "C10", "C14"],
+    ),
+]
+
+
+ATR_INV = {
+    "presence": ("iff(Rd(c, j, N) is not None, j >= period)", ["C05", "C09"]),
+    "type": ("implies(j >= period, isfloat(Rd(c, j, N)))", ["C05", "C09"]),
+    "rounded": ROUNDED,
+    "seed-mean-of-first-true-ranges": ("implies(j == period, Abs(num(Rd(c, j, N)) - Sigma(1, period + 1, lambda t: num0(Rd(c, t, TRN))) / period) <= eps)", ["C05"]),
+    "wilder-recurrence": ("implies(j > period, Abs(num(Rd(c, j, N)) - (num(Rd(c, j - 1, N)) * (period - 1) + num(Rd(c, j, TRN))) / period) <= eps)", ["C05"]),
+    "atr>=0": ("implies(j >= period, num(Rd(c, j, N)) >= 0)", ["C10"]),
+}
+
+SPECS += [
+    IndSpec(
+        "hexital.indicators.atr.ATR",
+        params=dict(RV, period=("int", None)),
+        lets=dict(LETS, TRN="'TR'"),
+        extra_pre=dict(PRE_RV, **{"period>=2": "period >= 2"}),
+        subs={"self.sub_indicators['TR']": {"role": "prior"}},
+        inv=ATR_INV,
+        window="period",
         props=["C01", "C02", "C05", "C09", "C10", "C14"],
     ),
 ]
